@@ -47,6 +47,16 @@ def build_input(summary, seed, tier):
         hists.append([rng.choice(sp) for _ in range(3)])
     rng.shuffle(hists)
     hists = hists[:700] if tier == "quick" else hists
+
+    def variant(a):
+        b = dict(a)
+        b["pos"] = [[k, (v + 3 if k == "i" and isinstance(v, int) and v not in (512,) else v)] for k, v in a["pos"]]
+        b["variant"] = True
+        return b
+    # every class against ITSELF with other argument values (a second command of the same class, built in between)
+    for a in sp:
+        hists.append([a, variant(a)])
+        hists.append([a, variant(a), a])
     byname = {s["cls"]: s for s in sp}
     pairs = []
     for a, b in (("Read10", "Inquiry"), ("Read16", "Write10"), ("Inquiry", "Read16"), ("TestUnitReady", "ReadCapacity16")):
